@@ -72,6 +72,11 @@ def build_target(env):
     bt = rt.bt()
     kids = []
     for name, kind in env.children.items():
+        if kind == "strat":
+            # a sub-strategy with explicitly constructed children of its own (never the parent's business)
+            own = [c for c in COLS if c not in env.children]
+            kids.append(bt.Strategy(name, [], [bt.Security(own[0]), bt.HedgeSecurity(own[1])] if len(own) >= 2 else [bt.Security(c) for c in own]))
+            continue
         kids.append({"sec": bt.Security, "fi": bt.FixedIncomeSecurity, "hedge": bt.HedgeSecurity, "cp": bt.CouponPayingSecurity}[kind](name))
     s = bt.Strategy("s", [], kids if kids else None)
     kw = {}
@@ -235,7 +240,7 @@ def ref_apply(spec, temp, env):
         temp["selected"] = [s for s in temp["selected"] if rx.search(s)]
         return True
     if name == "SelectTypes":
-        H = {"sec": {"sec"}, "fi": {"fi", "cp"}, "hedge": {"hedge"}, "cp": {"cp"}, "base": {"sec", "fi", "hedge", "cp"}, "node": {"sec", "fi", "hedge", "cp"}}
+        H = {"sec": {"sec"}, "fi": {"fi", "cp"}, "hedge": {"hedge"}, "cp": {"cp"}, "base": {"sec", "fi", "hedge", "cp"}, "node": {"sec", "fi", "hedge", "cp", "strat"}}
         inc = set().union(*[H[x] for x in p[0]]) if p[0] else set()
         exc = set().union(*[H[x] for x in p[1]]) if p[1] else set()
         sel = [k for k, kind in env.children.items() if kind in inc and kind not in exc]
@@ -463,7 +468,7 @@ def cases(tier, seed):
     for rx in ("^a$", "[bc]", "x", ""):
         for pr in priors[1:]:
             out.append(("SelectRegex", (hists_q[0], (1.0, 1.0, 1.0)), [("SelectRegex", (rx,))], pr))
-    kids = [{"a": "sec", "b": "fi", "c": "hedge"}, {"a": "cp", "b": "sec"}, {"c": "hedge", "a": "hedge"}, {}]
+    kids = [{"a": "sec", "b": "fi", "c": "hedge"}, {"a": "cp", "b": "sec"}, {"c": "hedge", "a": "hedge"}, {}, {"a": "sec", "s1": "strat"}, {"s1": "strat"}]
     for ch in kids:
         for inc in (("node",), ("sec",), ("fi",), ("base",), ("sec", "hedge")):
             for exc in ((), ("hedge",), ("cp",), ("fi",)):
